@@ -566,6 +566,17 @@ def rule_greedy_recursion(rep, crate):
                 rep.viol(rid, 'greedy:allow-test', 'the exemption is not `definition.allow_greedy.unwrap_or(false)` (e.g. is_some() would also exempt allow_greedy = false)', loc(g))
             elif not g.edge_dominates((allow['bb'], allow['f']), eb):
                 rep.viol(rid, 'greedy:allow-polarity', 'the greedy-dot error is not confined to the `allow_greedy is not true` edge', loc(g))
+            # the greedy test is evaluated whenever the definition does not allow greedy patterns: nothing else decides whether
+            # it runs (a shortcut on the attribute text misses dots that come from subpatterns or escapes)
+            if has is not None:
+                from mirlib import controlling_switches
+                hb = has['root'][1]
+                for sb in set(controlling_switches(g, hb)) | set(controlling_switches(g, has['bb'])):
+                    if allow is not None and sb == allow['bb']:
+                        continue
+                    if sb == has['bb']:
+                        continue
+                    rep.viol(rid, 'greedy:extra-condition', 'check_for_greedy_all() is only evaluated under an additional condition (%s): some greedy patterns are never examined' % desc(g, g.blocks[sb]['term']['discr'])[:120], loc(g, g.blocks[sb]['term']['line']))
             if has is None or not g.edge_dominates((has['bb'], has['t']), eb):
                 rep.viol(rid, 'greedy:has-polarity', 'the greedy-dot error is not recorded on the edge where check_for_greedy_all() is true', loc(g))
             from props.c19 import always_hits
